@@ -804,7 +804,7 @@ def run_c10(tier, seed, t0, replay_item=None):
                     "rule": "for each call (28 fixed call kinds over a standard tree incl. rejected calls and Initialize of a second process with and without an index, plus calls inside TLC-generated histories) a fault-free run counts the points reached per class (open drive for writing/reading - failed both before the drive manager runs and inside it by taking the medium's directory away for exactly that open -, k-th drive write, k-th drive read, k-th index-store call, k-th source read); then every (quick: a spread of) k is failed once on a fresh instance; the call and the following Mkdir/Stat/List/ReadFile probes must return under a watchdog and the process must survive; distinct = (call kind, fault class) pairs whose fault fired",
                     "samples": samples[:10] or ["none"], "fired": fired, "skipped": len(infra), "tlc_states": mc["distinct"]}
     rep.assumptions = ["faults are injected at the seams the code already has (BackendConfig functions, MetadataPersister interface, write-cache factory); a failing drive write performs a short write first",
-                       "a call counts as hung after 40 s, a probe after 25 s"]
+                       "a call counts as hung after 60 s, a probe after 50 s"]
     return finish(rep, t0)
 
 
